@@ -29,9 +29,12 @@ Definition fan_case_model_ok (closes : bool) (c : fan_case) : bool :=
 (* the property: success iff every worker succeeded, and then exactly the k best of everything returned *)
 Definition all_res (ms : list msg) : bool := forallb (fun m => match m with MRes _ => true | MErr _ => false end) ms.
 Definition results_of (ms : list msg) : list (list ritem) := flat_map (fun m => match m with MRes r => [r] | MErr _ => [] end) ms.
+(* ascending score order as returned (scores are non-negative float32 bit patterns: bit order is numeric order) *)
+Fixpoint ascending (l : list ritem) : bool :=
+  match l with x :: ((y :: _) as t) => (snd x <=? snd y)%Z && ascending t | _ => true end.
 Definition fan_case_oracle_ok (c : fan_case) : bool :=
   match fc_obs c with
-  | OOk l => all_res (fc_msgs c) && list_eqb ritem_eqb (canon l) (canon (topk (fc_k c) (results_of (fc_msgs c))))
+  | OOk l => all_res (fc_msgs c) && ascending l && list_eqb ritem_eqb (canon l) (canon (topk (fc_k c) (results_of (fc_msgs c))))
   | OOkNil => false
   | OErr _ => negb (all_res (fc_msgs c))
   | OTimeout => negb (all_res (fc_msgs c))
